@@ -80,6 +80,8 @@ class JSExec(GoExec, SpecMixin, CallsMixin):
         self.throws = []
         self.u32view = {}
         self.dmcache = {}
+        self.tzinfo = {}
+        self._keep = []
 
     # ------------------------------------------------------------------ number algebra
     def num(self, n):
@@ -153,7 +155,11 @@ class JSExec(GoExec, SpecMixin, CallsMixin):
 
     def tz(self, v):
         """guaranteed number of trailing zero bits of a non-negative Int term (syntactic)"""
+        if v.get_id() in self.tzinfo:
+            return self.tzinfo[v.get_id()]
         v = z3.simplify(v)
+        if v.get_id() in self.tzinfo:
+            return self.tzinfo[v.get_id()]
         if z3.is_int_value(v):
             n = v.as_long()
             if n == 0: return 64
@@ -458,8 +464,11 @@ class JSExec(GoExec, SpecMixin, CallsMixin):
                 return self.dm(ua, 1 << k)[0] if k else ua
             if op == '>>': return self.dm(self.toint32(a), 1 << k)[0] if k else self.toint32(a)
             u = self.touint32(self.u32(a) * (1 << k))
+            self.tzinfo[u.get_id()] = k            # (v * 2^k) mod 2^32 keeps k trailing zero bits
+            self._keep.append(u)
             r = self.toint32(u)
             self.u32view[r.get_id()] = u          # remember the unsigned reading of this int32 result
+            self._keep.append(r)
             return r
         if op == '&':
             for x, y in ((a, b), (b, a)):
@@ -482,6 +491,7 @@ class JSExec(GoExec, SpecMixin, CallsMixin):
                     u = ux + uy
                     r = self.toint32(u)
                     self.u32view[r.get_id()] = u
+                    self._keep += [u, r]
                     return r
             raise Unsupported('| of overlapping operands in mode jn @%s (use mode bv)' % line)
         raise Unsupported('operator %s in mode jn @%s' % (op, line))
@@ -858,9 +868,9 @@ class JSExec(GoExec, SpecMixin, CallsMixin):
                     h.assume(z3.ForAll([k], z3.Implies(z3.And([k != w.ident for w in written]), z3.Select(newh, k) == z3.Select(oldh, k))))
                 h.ghost[('jsheap',)] = newh
             henv = SpecEnv(h, self.spec_binds(h), entry)
-            self.js_loop_hints(h, spec, 'head')
             for cl in invs:
                 h.assume(self.sev_bool(henv, cl.expr))
+            self.js_loop_hints(h, spec, 'head')        # hints may rely on the invariant
             var0 = self.sev(henv, spec['decreases'][0].expr) if spec.get('decreases') else None
             def run(state):
                 if test is not None:
@@ -1090,6 +1100,8 @@ class JSExec(GoExec, SpecMixin, CallsMixin):
         self.known_ranges = {}
         self.u32view = {}
         self.dmcache = {}
+        self.tzinfo = {}
+        self._keep = []
         fr = Frame(' '.join(parts[1:]) if len(parts) >= 2 else name, fn, c)
         fr.loops = self.number_js_loops(fn)
         self.frame = fr
